@@ -18,6 +18,43 @@ ACCESSORS = re.compile(r".*::(get_mut|as_mut|iter_mut|next|iter|get|as_ref|unwra
 EXTENDERS = re.compile(r"(std::vec::Vec::push|itemlist::ItemList::push)$")
 
 
+_ITER_CALLS = re.compile(r"(Iterator::next|IntoIterator::into_iter|::iter_mut|::iter|::into_iter|Deref::deref|DerefMut::deref_mut|::as_mut|::as_ref|::next)$")
+
+
+def base_local(b, l, depth=0, trace=None):
+    """the local whose value `l` is a view of: through copies, references, field projections, and the iteration calls
+    (into_iter / iter_mut / next).  `trace` collects the blocks of the `next` calls passed (loop heads)"""
+    if depth > 16 or 1 <= l <= b.argc:
+        return l
+    defs = []
+    for bi, blk in enumerate(b.blocks):
+        if blk["cleanup"]:
+            continue
+        for st in blk["s"]:
+            if st["k"] == "assign" and not st["p"]["p"] and st["p"]["l"] == l:
+                defs.append(("s", st, bi))
+        t = blk["t"]
+        if t["k"] == "call" and t.get("dest") and not t["dest"]["p"] and t["dest"]["l"] == l:
+            defs.append(("c", t, bi))
+    if len(defs) != 1:
+        return l
+    k, d, bi = defs[0]
+    if k == "s":
+        rv = d["rv"]
+        pl = rv["p"] if rv["r"] == "ref" else (mir.op_place(rv["a"]) if rv["r"] in ("use", "cast") else None)
+        if pl is None:
+            return l
+        return base_local(b, pl["l"], depth + 1, trace)
+    nm = mir.strip_generics((d.get("res") or "").lstrip("?"))
+    if _ITER_CALLS.search(nm) and d["args"]:
+        ip = mir.op_place(d["args"][0])
+        if ip is not None:
+            if trace is not None and (nm.endswith("::next")):
+                trace.append(bi)
+            return base_local(b, ip["l"], depth + 1, trace)
+    return l
+
+
 def r08_listeq(chk, prog, rule="R08-listeq"):
     """the generated PartialEq impls (R08-eq) compare sub-element lists with ItemList's hand-written `==`: that one is equality of the
     whole item sequences -- the standard Vec/slice equality on both `items` fields, or an explicit equal-length test next to an
@@ -181,6 +218,32 @@ def run(chk):
                         has = any(mir.strip_generics((t.get("res") or "").lstrip("?")).endswith("::reset_location") and ("specification::%s " % el in (t.get("res") or "") or "specification::%s>" % el in (t.get("res") or "") or "<specification::%s as" % el in (t.get("res") or "")) for bi, t in b.calls())
                         if not has:
                             chk.add(Finding("R08-reset", "R08-reset::%s::%s" % (mir.strip_generics(fid), pth), "%s takes %s over from the merged-in module without reset_location(): the element keeps the uid/line of its source file and is written at a foreign position" % (fid, pth), b.where(ev[4])))
+                    elif m_el and (fty.startswith("std::vec::Vec") or "ItemList" in fty):
+                        # a whole list taken over from B: every element is reset -- a loop over *the value that is stored* (not over
+                        # the source field, which is empty after the take) calls reset_location, and that loop is passed on the way
+                        # to the store
+                        nreset += 1
+                        wl = None
+                        for st_ in b.blocks[ev[5]]["s"]:
+                            if st_["k"] == "assign" and st_["ln"] == ev[4] and st_["rv"]["r"] == "use" and st_["p"]["p"] and isinstance(st_["p"]["p"][-1], dict) and st_["p"]["p"][-1].get("f") == fld:
+                                op = mir.op_place(st_["rv"]["a"])
+                                if op is not None and not op["p"]:
+                                    wl = op["l"]
+                        okr = False
+                        if wl is not None:
+                            wbase = base_local(b, wl)
+                            for bi, t in b.calls():
+                                if mir.strip_generics((t.get("res") or "").lstrip("?")).endswith("::reset_location") and t["args"]:
+                                    rp = mir.op_place(t["args"][0])
+                                    if rp is None:
+                                        continue
+                                    chain = []
+                                    rbase = base_local(b, rp["l"], trace=chain)
+                                    heads = [x for x in chain if x is not None]
+                                    if rbase == wbase and (not heads or any(b.dominates(h, ev[5]) for h in heads)):
+                                        okr = True
+                        if not okr:
+                            chk.add(Finding("R08-reset", "R08-reset::%s::%s" % (mir.strip_generics(fid), pth), "%s takes the list %s over from the merged-in module, but no loop over the stored value resets the location of its elements before the store (they keep the uid/line of their source file and are written at a foreign position; sort_new_items() treats them as already placed)" % (fid, pth), b.where(ev[4])))
                 subj_ok = False
                 for (sb, taken) in b.control_deps_closure(ev[5]):
                     for st in c09.switch_subject(b, Sf, sb):
